@@ -61,18 +61,20 @@ func newRec() *Rec {
 
 // Ctx is what a monitor gets.
 type Ctx struct {
-	ID       string
-	Tier     string
-	Seed     uint64
-	Shard    int
-	NShards  int
-	OnlyPart string
-	OnlyIdx  int64
-	Replay   bool
-	Verbose  bool
-	Rec      *Rec
-	curCase  string
-	journal  string
+	ID        string
+	Tier      string
+	Seed      uint64
+	Shard     int
+	NShards   int
+	OnlyPart  string
+	OnlyIdx   int64
+	Replay    bool
+	Verbose   bool
+	Rec       *Rec
+	curCase   string
+	journal   string
+	onlyParts map[string]bool
+	skipParts map[string]bool
 }
 
 func (c *Ctx) Quick() bool    { return c.Tier != "thorough" }
@@ -90,6 +92,9 @@ func (c *Ctx) N(quick, thorough int64) int64 {
 // to f depends only on (seed, property, part, index), so any case can be replayed alone.
 func (c *Ctx) Part(name string, n int64, f func(i int64, r *Rng)) {
 	if c.OnlyPart != "" && c.OnlyPart != name {
+		return
+	}
+	if c.OnlyPart == "" && ((c.onlyParts != nil && !c.onlyParts[name]) || c.skipParts[name]) {
 		return
 	}
 	for i := int64(0); i < n; i++ {
@@ -383,6 +388,11 @@ type Spec struct {
 	// case was running is a violation naming that case (workers journal the case id before
 	// running it); a harness panic still counts as inconclusive.
 	DeathIsViolation bool
+	// RaceParts names the Parts that must run under the Go race detector: ordinary workers skip
+	// them and a second set of workers from the -race build (<binary>-race) runs only them,
+	// with GORACE logging to files; every distinct race report is a violation.
+	RaceParts  []string
+	RaceShards int
 	// Finish, when set, runs in the parent on the merged record (derived counters, coverage
 	// obligations that need the union over shards).
 	Finish func(c *Ctx)
@@ -443,6 +453,18 @@ func Main(spec Spec) {
 		os.Exit(parent(spec, tier, seed, verbose))
 	case "shard":
 		c := &Ctx{ID: spec.ID, Tier: tier, Seed: seed, Shard: shard, NShards: nshards, Rec: newRec(), Verbose: verbose, journal: os.Getenv("VERIF_JOURNAL")}
+		if v := os.Getenv("VERIF_PARTS"); v != "" {
+			c.onlyParts = map[string]bool{}
+			for _, p := range strings.Split(v, ",") {
+				c.onlyParts[p] = true
+			}
+		}
+		if v := os.Getenv("VERIF_SKIP_PARTS"); v != "" {
+			c.skipParts = map[string]bool{}
+			for _, p := range strings.Split(v, ",") {
+				c.skipParts[p] = true
+			}
+		}
 		spec.Run(c)
 		writeRec(c.Rec, out)
 		os.Exit(0)
@@ -576,85 +598,118 @@ func parent(spec Spec, tier string, seed uint64, verbose bool) int {
 				n = k
 			}
 		}
-		// Generous wall-clock watchdog: its firing is "inconclusive", never a verdict.
-		limit := 40 * time.Minute
-		if tier == "thorough" {
-			limit = 6 * time.Hour
-		}
-		if v := os.Getenv("VERIF_WATCHDOG_S"); v != "" {
-			if k, err := strconv.Atoi(v); err == nil && k > 0 {
-				limit = time.Duration(k) * time.Second
+		first := true
+		launch := func(bin string, n int, tag string, extraEnv []string) {
+			// Generous wall-clock watchdog: its firing is "inconclusive", never a verdict.
+			limit := 40 * time.Minute
+			if tier == "thorough" {
+				limit = 6 * time.Hour
 			}
-		}
-		type res struct {
-			i   int
-			err error
-			log string
-		}
-		ch := make(chan res, n)
-		for i := 0; i < n; i++ {
-			go func(i int) {
-				outp := filepath.Join(work, fmt.Sprintf("shard%02d.json", i))
-				logp := filepath.Join(work, fmt.Sprintf("shard%02d.log", i))
-				lf, _ := os.Create(logp)
-				cmd := exec.Command(os.Args[0], "shard", "--tier", tier, "--seed", strconv.FormatUint(seed, 10),
-					"--shard", fmt.Sprintf("%d/%d", i, n), "--out", outp)
-				cmd.Stdout = lf
-				cmd.Stderr = lf
-				cmd.Env = append(os.Environ(), "VERIF_WORK="+work)
-				if spec.DeathIsViolation {
-					cmd.Env = append(cmd.Env, "VERIF_JOURNAL="+outp+".journal")
+			if v := os.Getenv("VERIF_WATCHDOG_S"); v != "" {
+				if k, err := strconv.Atoi(v); err == nil && k > 0 {
+					limit = time.Duration(k) * time.Second
 				}
-				err := cmd.Start()
-				if err == nil {
-					done := make(chan error, 1)
-					go func() { done <- cmd.Wait() }()
-					select {
-					case err = <-done:
-					case <-time.After(limit):
-						cmd.Process.Signal(os.Interrupt)
-						time.Sleep(200 * time.Millisecond)
-						cmd.Process.Kill()
-						<-done
-						err = fmt.Errorf("wall-clock watchdog (%v) fired", limit)
+			}
+			type res struct {
+				i   int
+				err error
+				log string
+			}
+			ch := make(chan res, n)
+			for i := 0; i < n; i++ {
+				go func(i int) {
+					outp := filepath.Join(work, fmt.Sprintf("%sshard%02d.json", tag, i))
+					logp := filepath.Join(work, fmt.Sprintf("%sshard%02d.log", tag, i))
+					lf, _ := os.Create(logp)
+					cmd := exec.Command(bin, "shard", "--tier", tier, "--seed", strconv.FormatUint(seed, 10),
+						"--shard", fmt.Sprintf("%d/%d", i, n), "--out", outp)
+					cmd.Stdout = lf
+					cmd.Stderr = lf
+					cmd.Env = append(os.Environ(), "VERIF_WORK="+work)
+					cmd.Env = append(cmd.Env, extraEnv...)
+					if tag == "race-" {
+						cmd.Env = append(cmd.Env, fmt.Sprintf("GORACE=halt_on_error=0 log_path=%s", filepath.Join(work, fmt.Sprintf("racelog.%02d", i))))
 					}
-				}
-				lf.Close()
-				lb, _ := os.ReadFile(logp)
-				if len(lb) > 6000 {
-					lb = lb[len(lb)-6000:]
-				}
-				ch <- res{i, err, string(lb)}
-			}(i)
-		}
-		for k := 0; k < n; k++ {
-			r := <-ch
-			outp := filepath.Join(work, fmt.Sprintf("shard%02d.json", r.i))
-			if r.err != nil {
-				jb, _ := os.ReadFile(outp + ".journal")
-				if spec.DeathIsViolation && len(jb) > 0 && !strings.Contains(r.log, "(harness panic in case") && !strings.Contains(r.err.Error(), "watchdog") {
-					merged.ViolationsAll++
-					merged.Violations = append(merged.Violations, Violation{Property: spec.ID, Class: "worker-process-died", Case: string(jb),
-						Msg: fmt.Sprintf("the worker process died (%v) while running case %s; last output: %s", r.err, jb, lastLines(r.log, 12))})
+					if spec.DeathIsViolation {
+						cmd.Env = append(cmd.Env, "VERIF_JOURNAL="+outp+".journal")
+					}
+					err := cmd.Start()
+					if err == nil {
+						done := make(chan error, 1)
+						go func() { done <- cmd.Wait() }()
+						select {
+						case err = <-done:
+						case <-time.After(limit):
+							cmd.Process.Signal(os.Interrupt)
+							time.Sleep(200 * time.Millisecond)
+							cmd.Process.Kill()
+							<-done
+							err = fmt.Errorf("wall-clock watchdog (%v) fired", limit)
+						}
+					}
+					lf.Close()
+					lb, _ := os.ReadFile(logp)
+					if len(lb) > 6000 {
+						lb = lb[len(lb)-6000:]
+					}
+					ch <- res{i, err, string(lb)}
+				}(i)
+			}
+			for k := 0; k < n; k++ {
+				r := <-ch
+				outp := filepath.Join(work, fmt.Sprintf("%sshard%02d.json", tag, r.i))
+				if r.err != nil {
+					jb, _ := os.ReadFile(outp + ".journal")
+					if spec.DeathIsViolation && len(jb) > 0 && !strings.Contains(r.log, "(harness panic in case") && !strings.Contains(r.err.Error(), "watchdog") {
+						merged.ViolationsAll++
+						merged.Violations = append(merged.Violations, Violation{Property: spec.ID, Class: "worker-process-died", Case: string(jb),
+							Msg: fmt.Sprintf("the worker process died (%v) while running case %s; last output: %s", r.err, jb, lastLines(r.log, 12))})
+						continue
+					}
+					inconclusive = append(inconclusive, fmt.Sprintf("%sshard %d: %v\n%s", tag, r.i, r.err, r.log))
 					continue
 				}
-				inconclusive = append(inconclusive, fmt.Sprintf("shard %d: %v\n%s", r.i, r.err, r.log))
-				continue
+				b, err := os.ReadFile(outp)
+				if err != nil {
+					inconclusive = append(inconclusive, fmt.Sprintf("shard %d wrote no result: %v\n%s", r.i, err, r.log))
+					continue
+				}
+				var sr Rec
+				if err := json.Unmarshal(b, &sr); err != nil {
+					inconclusive = append(inconclusive, fmt.Sprintf("shard %d result unreadable: %v", r.i, err))
+					continue
+				}
+				if verbose && r.log != "" {
+					fmt.Printf("--- shard %d log ---\n%s\n", r.i, r.log)
+				}
+				mergeRec(merged, &sr, first)
+				first = false
 			}
-			b, err := os.ReadFile(outp)
-			if err != nil {
-				inconclusive = append(inconclusive, fmt.Sprintf("shard %d wrote no result: %v\n%s", r.i, err, r.log))
-				continue
+		}
+		var normalEnv []string
+		if len(spec.RaceParts) > 0 {
+			normalEnv = append(normalEnv, "VERIF_SKIP_PARTS="+strings.Join(spec.RaceParts, ","))
+		}
+		launch(os.Args[0], n, "", normalEnv)
+		if len(spec.RaceParts) > 0 {
+			raceBin := os.Args[0] + "-race"
+			if _, err := os.Stat(raceBin); err != nil {
+				inconclusive = append(inconclusive, "race-detector build "+raceBin+" is missing")
+			} else {
+				rn := spec.RaceShards
+				if rn == 0 {
+					rn = 4
+				}
+				launch(raceBin, rn, "race-", []string{"VERIF_PARTS=" + strings.Join(spec.RaceParts, ",")})
+				reports := collectRaceReports(work)
+				merged.Counters["race_detector_workers"] += int64(rn)
+				merged.Counters["race_reports_distinct"] += int64(len(reports))
+				for key, rep := range reports {
+					merged.ViolationsAll++
+					merged.Violations = append(merged.Violations, Violation{Property: spec.ID, Class: "data-race-" + sanitize(key), Case: "race",
+						Msg: "the race detector reported a data race: " + key, Detail: map[string]any{"report": rep}})
+				}
 			}
-			var sr Rec
-			if err := json.Unmarshal(b, &sr); err != nil {
-				inconclusive = append(inconclusive, fmt.Sprintf("shard %d result unreadable: %v", r.i, err))
-				continue
-			}
-			if verbose && r.log != "" {
-				fmt.Printf("--- shard %d log ---\n%s\n", r.i, r.log)
-			}
-			mergeRec(merged, &sr, k == 0)
 		}
 	}
 
@@ -782,6 +837,59 @@ func parent(spec Spec, tier string, seed uint64, verbose bool) int {
 		}
 	}
 	return rc
+}
+
+// collectRaceReports reads the race detector's log files and returns one report per distinct
+// pair of outermost tetromino/harness functions (line numbers stripped).
+func collectRaceReports(work string) map[string]string {
+	out := map[string]string{}
+	files, _ := filepath.Glob(filepath.Join(work, "racelog.*"))
+	for _, f := range files {
+		b, err := os.ReadFile(f)
+		if err != nil {
+			continue
+		}
+		for _, blk := range strings.Split(string(b), "==================") {
+			if !strings.Contains(blk, "WARNING: DATA RACE") {
+				continue
+			}
+			var fns []string
+			for _, ln := range strings.Split(blk, "\n") {
+				t := strings.TrimSpace(ln)
+				if strings.HasPrefix(t, "github.com/scottyw/tetromino/") || strings.HasPrefix(t, "verif/") || strings.HasPrefix(t, "main.") {
+					if k := strings.Index(t, "("); k > 0 && !strings.HasPrefix(t, "(") {
+						t = t[:strings.LastIndex(t, "(")]
+					}
+					fns = append(fns, t)
+				}
+			}
+			key := "unknown"
+			if len(fns) > 0 {
+				key = fns[0]
+				// the first frame of the second stack follows the "Previous ..." line
+				if k := strings.Index(blk, "Previous "); k > 0 {
+					rest := blk[k:]
+					for _, ln := range strings.Split(rest, "\n") {
+						t := strings.TrimSpace(ln)
+						if strings.HasPrefix(t, "github.com/scottyw/tetromino/") || strings.HasPrefix(t, "verif/") || strings.HasPrefix(t, "main.") {
+							if strings.Contains(t, "(") {
+								t = t[:strings.LastIndex(t, "(")]
+							}
+							key += " vs " + t
+							break
+						}
+					}
+				}
+			}
+			if _, ok := out[key]; !ok {
+				if len(blk) > 3000 {
+					blk = blk[:3000]
+				}
+				out[key] = blk
+			}
+		}
+	}
+	return out
 }
 
 func lastLines(s string, n int) string {
